@@ -9,7 +9,9 @@ import (
 	"errors"
 	"flag"
 	"fmt"
+	"github.com/risor-io/risor/importer"
 	"os"
+	"path/filepath"
 	"runtime"
 	"strings"
 	"sync"
@@ -122,21 +124,52 @@ func histWorker(req N) (resp N) {
 	boom := object.NewBuiltin("boom", func(ctx context.Context, args ...object.Object) object.Object {
 		panic("boom: host builtin panicked")
 	})
-	globals := map[string]any{"bump": bump, "poke": poke, "spin": spin, "boom": boom}
-	gnames := []string{"bump", "poke", "spin", "boom"}
+	// modules m1..m8 (all alike): the body fails or spins until cancelled when the driver says so. A failing
+	// import keeps its module name for the next attempt; a successful one moves on to the next name
+	// (a module that was loaded is served from the VM's cache, which is not an "earlier outcome")
+	var modFail, modCancel int64
+	modfail := object.NewBuiltin("modfail", func(ctx context.Context, args ...object.Object) object.Object {
+		if atomic.LoadInt64(&modFail) == 1 {
+			return object.Errorf("module body failed")
+		}
+		return object.Nil
+	})
+	modcancel := object.NewBuiltin("modcancel", func(ctx context.Context, args ...object.Object) object.Object {
+		return object.NewBool(atomic.LoadInt64(&modCancel) == 1)
+	})
+	globals := map[string]any{"bump": bump, "poke": poke, "spin": spin, "boom": boom, "modfail": modfail, "modcancel": modcancel}
+	gnames := []string{"bump", "poke", "spin", "boom", "modfail", "modcancel"}
 	cfg := risor.NewConfig()
-	vmOpts := append(cfg.VMOpts(), vm.WithGlobals(globals))
 	for k := range cfg.Globals() {
 		gnames = append(gnames, k)
 	}
+	modDir, derr := os.MkdirTemp("", "vmrun-mods")
+	if derr != nil {
+		return N{"k": "nomods", "msg": derr.Error()}
+	}
+	defer os.RemoveAll(modDir)
+	const nMods = 8
+	for j := 1; j <= nMods; j++ {
+		body := "modfail()\nif modcancel() {\nfor { spin() }\n}\nval := 7\n"
+		if werr := os.WriteFile(filepath.Join(modDir, fmt.Sprintf("m%d.risor", j)), []byte(body), 0o644); werr != nil {
+			return N{"k": "nomods", "msg": werr.Error()}
+		}
+	}
+	imp := importer.NewLocalImporter(importer.LocalImporterOptions{GlobalNames: gnames, SourceDir: modDir})
+	vmOpts := append(cfg.VMOpts(), vm.WithGlobals(globals), vm.WithImporter(imp))
+	modIdx := 1
 	snippet := map[string]string{
-		"normal":    "n := bump()\npoke()\nx := 0\nfor i := 0; i < 300; i++ { x += i }\nn * 1000 + x % 7",
-		"error":     "n := bump()\npoke()\nfunc f(k) { if k == 0 { return [][1] }\n return f(k - 1) }\nf(3)",
-		"panic":     "n := bump()\npoke()\nz := 0\n1 / z",
-		"overflow":  "n := bump()\npoke()\nfunc g(k) { return g(k + 1) }\ng(0)",
+		"normal":     "n := bump()\npoke()\nx := 0\nfor i := 0; i < 300; i++ { x += i }\nn * 1000 + x % 7",
+		"error":      "n := bump()\npoke()\nfunc f(k) { if k == 0 { return [][1] }\n return f(k - 1) }\nf(3)",
+		"panic":      "n := bump()\npoke()\nz := 0\n1 / z",
+		"overflow":   "n := bump()\npoke()\nfunc g(k) { return g(k + 1) }\ng(0)",
 		"opoverflow": "n := bump()\npoke()\nfunc og(k) { return 1 + og(k + 1) }\nog(0)",
-		"deeppanic": "n := bump()\npoke()\nfunc dp(k) { if k == 0 { return boom() }\n return dp(k - 1) }\ndp(600)",
-		"cancelled": "n := bump()\npoke()\nfor { spin() }",
+		"deeppanic":  "n := bump()\npoke()\nfunc dp(k) { if k == 0 { return boom() }\n return dp(k - 1) }\ndp(600)",
+		"cancelled":  "n := bump()\npoke()\nfor { spin() }",
+	}
+	// import kinds: the snippet and the library function depend on the module name in use
+	impSnippet := func(j int) string {
+		return fmt.Sprintf("n := bump()\npoke()\nimport m%d\nn * 1000 + m%d.val - 6", j, j)
 	}
 	// functions for the Call API come from a library code object run first (not part of the history)
 	lib := "func do_normal() { " + strings.ReplaceAll(snippet["normal"], "\n", "; ") + " }\n" +
@@ -146,6 +179,9 @@ func histWorker(req N) (resp N) {
 		"func do_opoverflow() { n := bump(); poke(); func og(k) { return 1 + og(k + 1) }; return og(0) }\n" +
 		"func do_deeppanic() { n := bump(); poke(); func dp(k) { if k == 0 { return boom() }; return dp(k - 1) }; return dp(600) }\n" +
 		"func do_cancelled() { n := bump(); poke(); for { spin() } }\n"
+	for j := 1; j <= nMods; j++ {
+		lib += fmt.Sprintf("func do_imp%d() { n := bump(); poke(); import m%d; return n * 1000 + m%d.val - 6 }\n", j, j, j)
+	}
 	libCode, err := compileSnippet(lib, gnames)
 	if err != nil {
 		return N{"k": "nolib", "msg": err.Error()}
@@ -159,7 +195,11 @@ func histWorker(req N) (resp N) {
 		return N{"k": "nolib", "msg": err.Error()}
 	}
 	fns := map[string]*object.Function{}
-	for _, k := range []string{"normal", "error", "panic", "deeppanic", "overflow", "opoverflow", "cancelled"} {
+	fnNames := []string{"normal", "error", "panic", "deeppanic", "overflow", "opoverflow", "cancelled"}
+	for j := 1; j <= nMods; j++ {
+		fnNames = append(fnNames, fmt.Sprintf("imp%d", j))
+	}
+	for _, k := range fnNames {
 		o, err := machine.Get("do_" + k)
 		if err != nil {
 			return N{"k": "nolib", "msg": err.Error()}
@@ -180,12 +220,27 @@ func histWorker(req N) (resp N) {
 		before := atomic.LoadInt64(&counter)
 		var val object.Object
 		var rerr error
+		isImport := kind == "impok" || kind == "imperr" || kind == "impcancel"
+		atomic.StoreInt64(&modFail, 0)
+		atomic.StoreInt64(&modCancel, 0)
+		if kind == "imperr" {
+			atomic.StoreInt64(&modFail, 1)
+		} else if kind == "impcancel" {
+			atomic.StoreInt64(&modCancel, 1)
+		}
+		if isImport && modIdx > nMods {
+			return N{"k": "nomods", "msg": "history imports more modules than were prepared"}
+		}
+		fnKey, src := kind, snippet[kind]
+		if isImport {
+			fnKey, src = fmt.Sprintf("imp%d", modIdx), impSnippet(modIdx)
+		}
 		if inv["api"] == "Call" {
-			val, rerr = machine.Call(ctxs[i], fns[kind], nil)
+			val, rerr = machine.Call(ctxs[i], fns[fnKey], nil)
 		} else {
 			// RunCode replaces the loaded code, so every snippet carries the function library with it and
 			// later Call invocations use the functions of the code that is loaded then (as risor.Call does)
-			code, cerr := compileSnippet(lib+snippet[kind], gnames)
+			code, cerr := compileSnippet(lib+src, gnames)
 			if cerr != nil {
 				return N{"k": "nosnippet", "msg": cerr.Error()}
 			}
@@ -195,7 +250,7 @@ func histWorker(req N) (resp N) {
 					val = tos
 				}
 			}
-			for _, k := range []string{"normal", "error", "panic", "deeppanic", "overflow", "opoverflow", "cancelled"} {
+			for _, k := range fnNames {
 				if o, gerr := machine.Get("do_" + k); gerr == nil {
 					if fn, ok := o.(*object.Function); ok {
 						fns[k] = fn
@@ -208,7 +263,7 @@ func histWorker(req N) (resp N) {
 		switch {
 		case rerr == nil:
 			want := (before+1)*1000 + 44850%7
-			if iv, ok := val.(*object.Int); kind == "normal" && ok && iv.Value() == want {
+			if iv, ok := val.(*object.Int); (kind == "normal" || kind == "impok") && ok && iv.Value() == want {
 				obs = "value"
 			} else if val == nil {
 				obs = "cut" // success without the value
@@ -226,6 +281,9 @@ func histWorker(req N) (resp N) {
 		}
 		if atomic.LoadInt64(&counter) != before+1 {
 			obs += "+effects"
+		}
+		if kind == "impok" && rerr == nil {
+			modIdx++
 		}
 		// for the trace: how the run ended in the terms of VMRun
 		result := "complete"
